@@ -603,8 +603,8 @@ def make_env_models(env):
         (rx(r"^<Path as (?:sys::fs::path::)?PathExt>::mash::<&str>$"), m_mash),
         (rx(r"^<Result<.*> as Try>::branch$"), m_try_branch),
         (rx(r"^<Result<.*> as FromResidual<Result<Infallible, .*>>>::from_residual$"), m_from_residual),
-        (rx(r"^Box::<\[PathBuf; \d+\]>::new_uninit$"), m_new_uninit),
-        (rx(r"^(?:std::boxed::)?box_assume_init_into_vec_unsafe::<PathBuf, \d+>$"), m_into_vec),
+        (rx(r"^Box::<\[.*; \d+\]>::new_uninit$"), m_new_uninit),
+        (rx(r"^(?:std::boxed::)?box_assume_init_into_vec_unsafe::<.*, \d+>$"), m_into_vec),
         (rx(r"^<.* as AsRef<str>>::as_ref$"), m_str_as_ref),
         (rx(r"^core::str::<impl str>::split::<char>$"), m_split),
         (rx(r"^(?:core::)?str::<impl str>::trim(_start|_end)?_matches::<char>$"), m_trim_matches),
@@ -1209,6 +1209,22 @@ def make_int_models():
             return BV(a.w, a.signed, "(ite %s %s %s)" % (c.smt(), a.smt(), b.smt()))
         return f
 
+    def m_checked_add_signed(ex, st, args, callee, ty):
+        a, b = args  # a: unsigned, b: signed of the same width
+        w = a.w
+        if a.concrete and b.concrete:
+            r = a.v + b.sint()
+            if 0 <= r < (1 << w):
+                return opt_some(ex, BV(w, False, r))
+            return opt_none(ex)
+        wa = "((_ zero_extend 2) %s)" % a.smt()
+        wb = "((_ sign_extend 2) %s)" % BV(w, True, b.v).smt()
+        s_ = "(bvadd %s %s)" % (wa, wb)
+        ok = B("(= ((_ extract %d %d) %s) #b00)" % (w + 1, w, s_))
+        if ex.decide(st, ok):
+            return opt_some(ex, BV(w, False, "(bvadd %s %s)" % (a.smt(), b.smt())))
+        return opt_none(ex)
+
     T = r"(?:core::)?num::<impl [iu](?:8|16|32|64|128|size)>::"
     return [
         (rx(r"^%sunsigned_abs$" % T), m_unsigned_abs),
@@ -1217,6 +1233,7 @@ def make_int_models():
         (rx(r"^%swrapping_sub$" % T), wrap("Sub")),
         (rx(r"^%swrapping_mul$" % T), wrap("Mul")),
         (rx(r"^%ssaturating_sub$" % T), m_sat_sub),
+        (rx(r"^%schecked_add_signed$" % T), m_checked_add_signed),
         (rx(r"^(?:std::)?cmp::min::<[iu]\w+>$"), minmax(True)),
         (rx(r"^(?:std::)?cmp::max::<[iu]\w+>$"), minmax(False)),
         (rx(r"^<[iu]\w+ as Ord>::min$"), minmax(True)),
